@@ -608,7 +608,13 @@ class Interp:
             else:
                 for idx, sub in enumerate(target.elts):
                     if isinstance(sub, ast.Starred):
-                        self.bind(st, sub.value, S("rest", value, ast.Constant(idx)))
+                        if idx == len(target.elts) - 1:
+                            # first, *rest = value  ->  rest is value[1:]
+                            self.bind(st, sub.value, ast.Subscript(
+                                value=value, slice=ast.Slice(lower=ast.Constant(idx), upper=None, step=None),
+                                ctx=ast.Load()))
+                        else:
+                            self.bind(st, sub.value, S("rest", value, ast.Constant(idx)))
                     else:
                         self.bind(
                             st, sub, ast.Subscript(value=value, slice=ast.Constant(idx), ctx=ast.Load())
